@@ -2,6 +2,10 @@
 use crate::fw::PropInfo;
 
 pub mod c01;
+pub mod c04;
+pub mod c11;
+pub mod c17;
+pub mod c18;
 pub mod c14;
 pub mod common;
 pub mod graph;
@@ -11,5 +15,5 @@ pub mod tree_props;
 pub mod c15;
 
 pub fn registry() -> Vec<PropInfo> {
-    vec![c01::info(), sched_props::info_c02(), sched_props::info_c03(), sched_props::info_c05(), tree_props::info_c06(), tree_props::info_c07(), tree_props::info_c08(), tree_props::info_c09(), tree_props::info_c10(), text_props::info_c12(), text_props::info_c13(), c14::info(), c15::info(), text_props::info_c16()]
+    vec![c01::info(), sched_props::info_c02(), sched_props::info_c03(), c04::info(), sched_props::info_c05(), tree_props::info_c06(), tree_props::info_c07(), tree_props::info_c08(), tree_props::info_c09(), tree_props::info_c10(), c11::info(), text_props::info_c12(), text_props::info_c13(), c14::info(), c15::info(), text_props::info_c16(), c17::info(), c18::info()]
 }
